@@ -79,7 +79,7 @@ CLAIMS = {
                 "one, operator builders by order parity, generators by the documented option table. Correspondence: "
                 "accept/reject/exception class of every exported stepper class (enumerated from the package exports), "
                 "RepeatedStepper, ForcedStepper (state and forcing), Poisson, operators, generators (incl. the offset-range "
-                "generators), metrics, nonlinear funs vs the model, exact. (Repaired defect D9: ForcedStepper skipped the check.)",
+                "generators), metrics, nonlinear funs vs the model, exact. Vector coefficients (Properties/C20_coefficients.lean): the regenerated constructors of Advection/AdvectionDiffusion/Dispersion store a vector unchanged and expand only scalars; a stored vector of length n passes the regenerated velocity-shape guard iff n = D (oracle: lengths 1..4 in D = 1..3). (Repaired defect D9: ForcedStepper skipped the check.)",
         "technique": "Lean 4 proof of decision logic over guards translated from the source + exhaustive exact accept/reject correspondence over package exports",
         "design_ref": "DESIGN.md §5 C20",
     },
@@ -188,7 +188,7 @@ CLAIMS = {
                 "-m(2pi/L)gamma cos(m 2pi x_1/L) and the 3-D velocity term rfftn of gamma sin(m 2pi x_1/L) in channel 0 and zero in "
                 "channels 1, 2 (every N with 2m<N, any convection scale / dealiasing). WHOLE spectrum: the 2-D vorticity convection vanishes on every shear spectrum, so from rest every order moves only the forced mode (exact coefficients: f(e^{n sigma dt}-1)/sigma there, 0 elsewhere; stored coefficients: all four orders the same trajectory); 3-D for the two Kolmogorov modes (_partial). 3-D: the rotational term vanishes on EVERY real shear profile (f(x_1),0,0), any N, any mask, Nyquist content included. Correspondence: injected spectra, rest-start "
                 "rollouts for L in {2pi,1,5}, ForcedStepper over several base steppers. Oracle: laminar closed form of the "
-                "documented forcing with varied convection scale and sign. (Repaired forcing defects: known_findings.json, fixed.)",
+                "documented forcing with varied convection scale and sign, also forced at the highest resolved wavenumber (N-1)//2. The coefficient-extraction scaling array regenerated from _spectral.py is the scaling the regenerated injection uses (N*N/2 at (0,m) for every 0<2m<N). (Repaired forcing defects: known_findings.json, fixed.)",
         "technique": "Lean 4 proof (recurrence/closed form + per-mode injection) + model/implementation correspondence",
         "design_ref": "DESIGN.md §5 C12",
     },
